@@ -273,6 +273,16 @@ fn main() {
         }
         return;
     }
+    if args.len() >= 3 && args[1] == "--dump-c24-corpus" {
+        match props::c24::dump_corpus(std::path::Path::new(&args[2])) {
+            Ok(n) => println!("{} corpus files", n),
+            Err(e) => {
+                eprintln!("cannot write corpus: {}", e);
+                std::process::exit(2);
+            }
+        }
+        return;
+    }
     if args.len() >= 4 && args[2] == "--replay" {
         let id = args[1].clone();
         let path = args[3].clone();
